@@ -42,6 +42,11 @@ pub struct MtScript {
     /// then a small one
     #[serde(default)]
     pub raw_limit_slack: Option<usize>,
+    /// the publisher that lays out its own frames (present with this flag even without a frame at
+    /// the limit) does not wait for the registration answer: registration and both messages leave
+    /// in one write
+    #[serde(default)]
+    pub raw_pipelined: bool,
 }
 
 pub fn gen_script(rng: &mut Rng) -> MtScript {
@@ -58,7 +63,7 @@ pub fn gen_script(rng: &mut Rng) -> MtScript {
     if raw_limit_slack.is_some() {
         net.loss_ppm = 0;
     }
-    MtScript { net, rt_seed: rng.next(), topics, gap_ms: *rng.pick(&[0u64, 0, 1, 20]), msg_size: *rng.pick(&[0usize, 0, 900, 1_500, 5_000, 40_000]), raw_limit_slack }
+    MtScript { net, rt_seed: rng.next(), topics, gap_ms: *rng.pick(&[0u64, 0, 1, 20]), msg_size: *rng.pick(&[0usize, 0, 900, 1_500, 5_000, 40_000]), raw_limit_slack, raw_pipelined: rng.chance(1, 5) }
 }
 
 type Received = Rc<RefCell<Vec<String>>>;
@@ -115,27 +120,48 @@ async fn scenario(world: Rc<World>, sc: MtScript) -> AResult<Vec<(usize, Vec<Str
             })));
         }
     }
-    if let Some(slack) = sc.raw_limit_slack {
+    let has_raw = sc.raw_limit_slack.is_some() || sc.raw_pipelined;
+    if has_raw {
+        let slack = sc.raw_limit_slack;
+        let pipelined = sc.raw_pipelined;
         let gr = world.new_group();
         let (ep, conn) = world.raw_trusted(gr, None).await?;
         let topic = selium_protocol::TopicName::try_from(sc.topics[0].name.as_str()).map_err(|e| anyhow::anyhow!("{e}"))?;
         tasks.push(tokio::task::spawn_local(ACTOR.scope(gr, async move {
             let _keep = ep;
             let reg = selium_protocol::Frame::RegisterPublisher(selium_protocol::PublisherPayload { topic, retention_policy: 0, operations: vec![] });
-            let Ok(mut st) = raw_open(&conn, reg).await else { return };
-            if !matches!(st.next().await, Some(Ok(selium_protocol::Frame::Ok))) {
-                return;
+            let mut first = b"T0:R:0".to_vec();
+            if let Some(slack) = slack {
+                first.push(b';');
+                first.resize(message_len_for_slack(slack), b'y');
             }
-            let mut big = b"T0:R:0;".to_vec();
-            big.resize(message_len_for_slack(slack), b'y');
-            let _ = st.write().write_all(&hand_encode_message(&big)).await;
-            let _ = st.write().write_all(&hand_encode_message(b"T0:R:1")).await;
+            let mut st = if pipelined {
+                use tokio_util::codec::Encoder;
+                let mut buf = bytes::BytesMut::new();
+                if selium_protocol::MessageCodec.encode(reg, &mut buf).is_err() {
+                    return;
+                }
+                buf.extend_from_slice(&hand_encode_message(&first));
+                buf.extend_from_slice(&hand_encode_message(b"T0:R:1"));
+                let Ok(mut st) = selium_protocol::BiStream::try_from_connection(&conn).await else { return };
+                let _ = st.write().write_all(&buf).await;
+                let _ = st.next().await;
+                st
+            } else {
+                let Ok(mut st) = raw_open(&conn, reg).await else { return };
+                if !matches!(st.next().await, Some(Ok(selium_protocol::Frame::Ok))) {
+                    return;
+                }
+                let _ = st.write().write_all(&hand_encode_message(&first)).await;
+                let _ = st.write().write_all(&hand_encode_message(b"T0:R:1")).await;
+                st
+            };
             let _ = st.write().finish().await;
             // keep the connection until the server has read everything
             tokio::time::sleep(Duration::from_secs(600)).await;
         })));
     }
-    let raw_task = if sc.raw_limit_slack.is_some() { tasks.pop() } else { None };
+    let raw_task = if has_raw { tasks.pop() } else { None };
     for t in tasks {
         let _ = t.await;
     }
@@ -146,7 +172,7 @@ async fn scenario(world: Rc<World>, sc: MtScript) -> AResult<Vec<(usize, Vec<Str
     let mut last = total(&lists);
     let mut deadline = tokio::time::Instant::now() + Duration::from_secs(120);
     loop {
-        let done = lists.iter().all(|(ti, g)| g.borrow().len() >= sc.topics[*ti].n_pubs * sc.topics[*ti].msgs_per_pub + if *ti == 0 && sc.raw_limit_slack.is_some() { 2 } else { 0 });
+        let done = lists.iter().all(|(ti, g)| g.borrow().len() >= sc.topics[*ti].n_pubs * sc.topics[*ti].msgs_per_pub + if *ti == 0 && has_raw { 2 } else { 0 });
         if done || tokio::time::Instant::now() >= deadline {
             break;
         }
@@ -229,15 +255,22 @@ pub fn execute(prop: &str, sc: &MtScript, opts: &ExecOpts) -> Outcome {
                             }
                         }
                     }
-                    if let Some(slack) = sc.raw_limit_slack {
-                        out.fault("raw_publisher_frame_at_limit");
+                    if sc.raw_limit_slack.is_some() || sc.raw_pipelined {
+                        let slack = sc.raw_limit_slack;
+                        if slack.is_some() {
+                            out.fault("raw_publisher_frame_at_limit");
+                        }
+                        if sc.raw_pipelined {
+                            out.fault("raw_publisher_does_not_wait_for_ok");
+                        }
                         for (si, (ti, got)) in lists.iter().enumerate() {
                             if *ti != 0 {
                                 continue;
                             }
                             let mine: Vec<&str> = got.iter().filter(|m| m.starts_with("T0:R:")).map(|s| s.as_str()).collect();
                             if mine != ["T0:R:0", "T0:R:1"] {
-                                out.violate(prop, "messages-lost", "multi-topic:frame-at-limit", format!("subscriber {si} of {:?}: a publisher that lays out its own frames sent a message whose frame payload is {slack} bytes short of the limit and then a small one; the subscriber received {:?} from it (and {} messages in all)", sc.topics[0].name, mine, got.len()));
+                                let sig = if slack.is_some() { "multi-topic:frame-at-limit" } else { "multi-topic:pipelined-registration" };
+                                out.violate(prop, "messages-lost", sig, format!("subscriber {si} of {:?}: a publisher that lays out its own frames (first message {}, registration answer awaited: {}) sent two messages; the subscriber received {:?} from it (and {} messages in all)", sc.topics[0].name, slack.map(|s| format!("{s} bytes short of the frame limit")).unwrap_or_else(|| "small".into()), !sc.raw_pipelined, mine, got.len()));
                                 break;
                             }
                         }
@@ -320,6 +353,11 @@ impl Family for MultiTopic {
         if sc.raw_limit_slack.is_some() {
             let mut c = sc.clone();
             c.raw_limit_slack = None;
+            out.push(c);
+        }
+        if sc.raw_pipelined {
+            let mut c = sc.clone();
+            c.raw_pipelined = false;
             out.push(c);
         }
         if sc.net.loss_ppm > 0 || sc.net.dup_ppm > 0 || sc.net.jitter_ms > 0 {
